@@ -156,6 +156,30 @@ theorem C56_batch_noninterference (pre post : List DohReq) (r : DohReq) :
       some (requestToDnsMsgC unpack r.method r.dnsVals r.chunks r.ra r.ca) := by
   simp [convertBatch]
 
+/-- **C56_handler**: what reaches the upstream and what the client gets.  (1) Nothing is sent upstream unless the request
+    matched the condition, came over TLS, was converted and can be packed.  (2) At most retryMax+1 queries are sent.
+    (3) The client gets 200 exactly when one of the first retryMax+1 exchanges gets a proper reply, 403 without TLS,
+    500 for every other failure, and the request is passed on (`goon`) exactly when the condition does not match. -/
+theorem C56_handler (matched secure : Bool) (conv : Option Msg) (script : List Char) (retryMax : Nat) :
+    let r := dohHandler matched secure conv script retryMax
+    ((matched = false ∨ secure = false ∨ conv = none ∨ (∃ m, conv = some m ∧ m.packable = false)) → r.2 = 0) ∧
+    r.2 ≤ retryMax + 1 ∧
+    (r.1 = HRes.goon ↔ matched = false) ∧
+    (r.1 = HRes.resp 403 ↔ matched = true ∧ secure = false) ∧
+    (r.1 = HRes.resp 200 ↔ matched = true ∧ secure = true ∧ (∃ m, conv = some m ∧ m.packable = true) ∧
+        ((script.take (retryMax + 1)).length < retryMax + 1 ∨ 'r' ∈ script.take (retryMax + 1))) := by
+  have hle := exchangeWithRetry_le (retryMax + 1) script
+  have hok := exchangeWithRetry_ok_iff (retryMax + 1) script
+  cases matched <;> cases secure <;> cases conv with
+  | none => simp [dohHandler]
+  | some m =>
+    cases hp : m.packable <;> simp [dohHandler, hp]
+    all_goals first
+      | (refine ⟨hle, ?_, ?_⟩
+         · cases (exchangeWithRetry (retryMax + 1) script).2 <;> simp
+         · simpa using hok)
+      | skip
+
 /-- **C56_ttl_min** (RFC 8484 §5.1, mod_doh docs): `Cache-Control: max-age` is the smallest TTL of the Answer section —
     it is one of the answer TTLs and no answer TTL is smaller; 0 when there is no answer.  Authority/additional
     records do not take part. -/
